@@ -44,9 +44,16 @@ def canon_trace(lines):
         if group:
             out.extend(sorted(group))
             group.clear()
+    dead = False
     for l in lines:
+        if l.startswith("query "):
+            dead = False
+        if dead and l.startswith("S "):
+            continue  # calls made by destructors while the panic unwinds (MaximalExtensionComputer::drop)
         if l.startswith("S "):
             t = l.split(" ")
+            if len(t) == 3 and t[2] == "k":
+                dead = True
             if len(t) >= 3 and t[2] == "c":
                 lits = sorted(int(x) for x in t[3:] if x)
                 group.append("S %s c %s" % (t[1], " ".join(map(str, lits))))
